@@ -5,6 +5,11 @@
 #[path = "../../corpus/order.rs"]
 pub mod order;
 
+/// acceptance gate only: a generic contract whose exec handlers use the parameters in an INTERLEAVED
+/// order (A, B, V, A); the same handlers in a non-interleaved order are trivially accepted
+#[path = "../../corpus/generic.rs"]
+pub mod generic;
+
 /// Every twin must be ACCEPTED and must emit the same set of entry points (compile gate, native too).
 #[allow(path_statements)]
 pub fn twins_exist() {
